@@ -212,12 +212,31 @@ NOT_YET = "check not built yet in this revision of /verif (see DESIGN.md section
 ALL = [f"C{i:02d}" for i in range(1, 21)]
 
 
+# additions of later sessions, appended to the description of the check (DESIGN.md 7.7)
+EXTRA = {
+    "C01": " Session 5: list targets on their second use (array / anyvalue / nested record decode a second message into the same object).",
+    "C05": " Session 5: request vs link loss - a Select / Deselect / Linktest / data request directly followed by the peer's close under every "
+           "schedule with <= 2 (3) delays; the closed connection ends NOT CONNECTED, the next one starts NOT SELECTED and can be selected.",
+    "C06": " Session 5: a reply written at the very instant of the caller's T3 time-out, followed by a second round (one more request after every "
+           "transaction is over must get its own reply).",
+    "C12": " Session 5: the canonical state contains every container attribute of the handler; a second search starts from a working configuration "
+           "(report linked, enabled, reported once) with delete / redefine / relink events to depth 3 + 6 (3 + 7).",
+    "C14": " Session 5: all 256 byte values of a BOOLEAN item through Item.decode (alone, array, two length bytes, in a list).",
+    "C15": " Session 5: all A / J / B single-byte items rendered and parsed back one after the other in one process, four orders (history kept in caches).",
+    "C19": " Session 5: comments that swallow the following line, read right after the text they equal up to white space; list names that coincide "
+           "with the library's own words (DATA, NAME, VALUE).",
+    "C20": " Session 5: the equipment triggers the event the moment it is enabled while the host is still inside subscribe_collection_event "
+           "(<= 2 (3) delays); two reports on one event before 'drop every subscription'.",
+}
+
+
 def main():
     checks = []
     for pid in ALL:
         if pid not in CHECKS:
             continue
         cat, engine, technique, text, note, ref = CHECKS[pid]
+        text += EXTRA.get(pid, "")
         checks.append({
             "property_id": pid,
             "quick_cmd": f"{PY} {pid} --tier quick",
